@@ -77,6 +77,7 @@ type meshSched struct {
 	maxDelay  int    // microseconds, free mode
 	holdPoint string // free mode: the first thread arriving at this gate is held for holdDur
 	holdDur   time.Duration
+	holdParty int // -1: any party; otherwise only this party's thread is held
 	held      bool
 	finished  map[int]error
 	done      map[int]bool
@@ -85,7 +86,7 @@ type meshSched struct {
 }
 
 func newMeshSched() *meshSched {
-	s := &meshSched{waiting: map[threadKey]*gateReq{}, finished: map[int]error{}, done: map[int]bool{}}
+	s := &meshSched{waiting: map[threadKey]*gateReq{}, finished: map[int]error{}, done: map[int]bool{}, holdParty: -1}
 	s.cond = sync.NewCond(&s.mu)
 	return s
 }
@@ -94,7 +95,7 @@ func (s *meshSched) gate(point string, self, a, b int) {
 	s.mu.Lock()
 	if s.open {
 		var d time.Duration
-		if s.holdPoint == point && !s.held {
+		if s.holdPoint == point && !s.held && (s.holdParty < 0 || s.holdParty == self) {
 			s.held = true
 			s.mu.Unlock()
 			time.Sleep(s.holdDur)
@@ -558,7 +559,7 @@ func c19Random(idx int, n, c int, rng *rand.Rand, record bool) (*Result, []meshE
 	return res, evs, nil
 }
 
-func c19Free(idx, n, c int, rng *rand.Rand, hold string, holdDur time.Duration) (*Result, error) {
+func c19Free(idx, n, c int, rng *rand.Rand, hold string, holdDur time.Duration, holdParty ...int) (*Result, error) {
 	res := &Result{Case: idx, Sample: map[string]interface{}{"n": n, "c": c, "hold": hold}}
 	r, err := newMeshRun(n, c, res)
 	if err != nil {
@@ -566,7 +567,10 @@ func c19Free(idx, n, c int, rng *rand.Rand, hold string, holdDur time.Duration) 
 	}
 	defer r.close()
 	r.s.open = true
-	r.s.holdPoint, r.s.holdDur = hold, holdDur
+	r.s.holdPoint, r.s.holdDur, r.s.holdParty = hold, holdDur, -1
+	if len(holdParty) > 0 {
+		r.s.holdParty = holdParty[0]
+	}
 	r.s.delayRng = rand.New(rand.NewSource(rng.Int63()))
 	r.s.maxDelay = []int{0, 200, 2000, 8000}[rng.Intn(4)]
 	if err := r.create(); err != nil {
@@ -707,6 +711,16 @@ func c19Main(args []string) error {
 				return err
 			}
 			r.Class = "slow:" + p
+			out.put(r)
+		}
+		// the joiner with the highest id learns the peer list late: the lower ids, which dial it, are already under way
+		for k := 0; k < 2; k++ {
+			n := 3 + k
+			r, err := c19Free(len(points)+2+k, n, 2, rng, "RecvList", time.Duration(dur)*time.Millisecond, n-1)
+			if err != nil {
+				return err
+			}
+			r.Class = "slow:RecvList-last-joiner"
 			out.put(r)
 		}
 		// a party that starts several seconds late, and a mesh that is first used several seconds after it formed:
